@@ -94,8 +94,19 @@ func (p *Parser) ParseFile(filename string, varPool *VarPool) (*MetaData, []*Bui
 		}
 	}
 
-	for _, f := range pkg.Syntax {
-		if f == nil {
+	// The output file of this source is about to be overwritten: whatever a previous run left
+	// in it must not influence the names chosen now, or the output would depend on its own history.
+	absOutputFile, _ := filepath.Abs(outputFileName(filename))
+	isOwnOutput := func(i int) bool {
+		if i >= len(pkg.GoFiles) {
+			return false
+		}
+		absGoFile, _ := filepath.Abs(pkg.GoFiles[i])
+		return absGoFile == absOutputFile
+	}
+
+	for i, f := range pkg.Syntax {
+		if f == nil || isOwnOutput(i) {
 			continue
 		}
 
@@ -130,8 +141,8 @@ func (p *Parser) ParseFile(filename string, varPool *VarPool) (*MetaData, []*Bui
 		}
 	}
 
-	for _, f := range pkg.Syntax {
-		if f == nil {
+	for i, f := range pkg.Syntax {
+		if f == nil || isOwnOutput(i) {
 			continue
 		}
 
